@@ -484,7 +484,7 @@ package shmipc
 //@   requires len(mem) < 4294967296 && region(mem) > 0
 //@   ensures  r1 != nil ==> r0 == nil
 //@   ensures  r1 == nil ==> r0 != nil && fresh(r0) && offset + 36 <= len(mem) && r0.offsetInShm == offset && r0.bufferRegionOffsetInShm == uint32(offset + 36)
-//@   ensures  r1 == nil ==> 36 + mem32(mem, offset + 4) * (mem32(mem, offset + 16) + 20) < 4294967296 ==> listGeom(r0, mem, offset, mem32(mem, offset + 4), mem32(mem, offset + 16))
+//@   ensures  r1 == nil ==> mem32(mem, offset + 16) + 20 < 4294967296 && 36 + mem32(mem, offset + 4) * (mem32(mem, offset + 16) + 20) < 4294967296 ==> listGeom(r0, mem, offset, mem32(mem, offset + 4), mem32(mem, offset + 16))
 //@   ensures  offset + 36 + mem32(mem, offset + 4) * (mem32(mem, offset + 16) + 20) <= len(mem) && offset + 36 <= len(mem) ==> r1 == nil
 //@   modifies nothing
 
@@ -622,6 +622,7 @@ func lemmaCreateThenMapQueue(data []byte, cap uint32) {
 
 // VerifyConfig: what an accepted configuration guarantees to the layout code
 //@ func VerifyConfig
+//@   unreachable-returns 4   // arm64-only checks and the GOOS/GOARCH checks are constant on linux/amd64
 //@   requires config != nil && len(config.BufferSliceSizes) < 65536
 //@   requires forall j in [0, len(config.BufferSliceSizes)): config.BufferSliceSizes[j] != nil
 //@   ensures  result == nil ==> config.ShareMemoryBufferCap >= 1048576 && len(config.BufferSliceSizes) >= 1
